@@ -599,6 +599,7 @@ pub fn run(tier: &str, _seed: u64, outdir: &str) {
         let cur: anoncreds::types::RevocationStatusList = serde_json::from_value(docs["list0"].clone()).unwrap();
         let updates: Vec<(&str, Vec<i32>, Vec<i32>, i64)> = vec![
             ("revoke-one", vec![], vec![2], 200), ("revoke-several-unordered", vec![], vec![4, 1, 3], 200), ("issue-and-revoke", vec![3], vec![2], 200), ("revoke-duplicate-index", vec![], vec![2, 2], 200),
+            ("negative-revoked", vec![], vec![-2], 200), ("negative-issued", vec![-3], vec![], 200), ("negative-among-valid", vec![], vec![2, -3], 200), ("negative-both", vec![-1], vec![-1], 200),
             ("nothing", vec![], vec![], 200), ("no-timestamp", vec![], vec![2], 0), ("out-of-range", vec![], vec![99], 200), ("both-same-index", vec![2], vec![2], 200), ("issue-first-revoke-last", vec![1], vec![5], 300),
         ];
         for (uname, issued, revoked, ts) in updates.iter() {
